@@ -97,7 +97,7 @@ def json_path(p):
     """the decode step as rxsci.container.json.load_from_file composes it (file.read chunks -> decode -> line.unframe -> load): the harness of C19 with a short read
     at a given byte position, here for multi-byte characters cut by the read boundary"""
     from vp.props import C19
-    return C19.file_rt(dict(lens=p['lens'], compression=None, c1=p['c1'], as_bytes=True))
+    return C19.file_rt(dict(lens=p['lens'], compression=p.get('compression'), c1=p['c1'], as_bytes=True, encoding=p.get('encoding', 'utf-8')))
 
 
 FAMILIES = {'roundtrip': roundtrip, 'stub_valid': stub_valid, 'json_path': json_path}
@@ -120,6 +120,9 @@ def obligations(tier, seed):
                               bound=dict(encoding=enc, code_points_per_string=lens, first_cut=c1, second_cut='symbolic')))
     for c1 in range(1, 13 if q else 17):
         obs.append(Ob(PROP, 'json_path', dict(lens=[1, 1], c1=c1), budget=b, group='json_path', bound=dict(object_chars=[1, 1], short_read_at=c1, encoding='utf-8 through json.load_from_file')))
+    for comp in (None, 'gzip', 'zstd'):
+        for lens in ([0, 0, 0], [1, 0]):
+            obs.append(Ob(PROP, 'json_path', dict(lens=lens, c1=3, compression=comp, encoding='utf-16'), budget=b, group='json_path', bound=dict(object_chars=lens, encoding='utf-16 through json.dump_to_file / load_from_file', compression=comp)))
     obs.append(Ob(PROP, 'roundtrip', dict(enc='utf-8', lens=[1, 1], c1=1, maxbytes=8, default=True), budget=b, group='roundtrip:utf-8', bound=dict(encoding='default arguments', code_points_per_string=[1, 1])))
     obs.append(Ob(PROP, 'roundtrip', dict(enc='utf-8', lens=[1, 1], c1=2, maxbytes=8, _twin='reach'), budget=60, expect='refute'))
     return obs
